@@ -181,6 +181,17 @@ def create_create_body(
     return msg_body
 
 
+async def _resolve(future: kiwipy.Future) -> Any:
+    """
+    Wait for a future handed out by the communicator and for every future it resolves to in turn.  How many levels there
+    are depends on how the receiving side is wired up (e.g. through a LoopCommunicator), the outcome is what comes last.
+    """
+    result = await asyncio.wrap_future(future)
+    while isinstance(result, kiwipy.Future):
+        result = await asyncio.wrap_future(result)
+    return result
+
+
 class RemoteProcessController:
     """
     Control remote processes using coroutines that will send messages and wait
@@ -197,8 +208,7 @@ class RemoteProcessController:
         :return: the status response from the process
         """
         future = self._communicator.rpc_send(pid, MessageBuilder.status())
-        result = await asyncio.wrap_future(future)
-        return result
+        return await _resolve(future)
 
     async def pause_process(self, pid: 'PID_TYPE', msg_text: Optional[str] = None) -> 'ProcessResult':
         """
@@ -211,11 +221,8 @@ class RemoteProcessController:
         msg = MessageBuilder.pause(text=msg_text)
 
         pause_future = self._communicator.rpc_send(pid, msg)
-        # rpc_send return a thread future from communicator
-        future = await asyncio.wrap_future(pause_future)
-        # future is just returned from rpc call which return a kiwipy future
-        result = await asyncio.wrap_future(future)
-        return result
+        # rpc_send returns a thread future from the communicator, which resolves to further futures until the pause is enacted
+        return await _resolve(pause_future)
 
     async def play_process(self, pid: 'PID_TYPE') -> 'ProcessResult':
         """
@@ -225,9 +232,7 @@ class RemoteProcessController:
         :return: True if played, False otherwise
         """
         play_future = self._communicator.rpc_send(pid, MessageBuilder.play())
-        future = await asyncio.wrap_future(play_future)
-        result = await asyncio.wrap_future(future)
-        return result
+        return await _resolve(play_future)
 
     async def kill_process(self, pid: 'PID_TYPE', msg_text: Optional[str] = None) -> 'ProcessResult':
         """
@@ -239,12 +244,9 @@ class RemoteProcessController:
         """
         msg = MessageBuilder.kill(text=msg_text)
 
-        # Wait for the communication to go through
+        # Wait for the communication to go through and then for the kill to be enacted
         kill_future = self._communicator.rpc_send(pid, msg)
-        future = await asyncio.wrap_future(kill_future)
-        # Now wait for the kill to be enacted
-        result = await asyncio.wrap_future(future)
-        return result
+        return await _resolve(kill_future)
 
     async def continue_process(
         self, pid: 'PID_TYPE', tag: Optional[str] = None, nowait: bool = False, no_reply: bool = False
